@@ -257,6 +257,9 @@ func satisfy(r *core.Rand, c *condSpec, m *message) {
 			m.reqHdr, m.resHdr = append(m.reqHdr, kv), append(m.resHdr, kv)
 		}
 	case 'p':
+		if !hostPortOK("h:" + c.a) { // a port no URL can carry (negative, huge): nothing to bend
+			break
+		}
 		if i := strings.IndexByte(m.host, ':'); i >= 0 {
 			m.host = m.host[:i]
 		}
